@@ -22,5 +22,5 @@ func mix(over map[string]int) map[string]int {
 
 // ProfileFull is the full ecocredit message mix (C01..C04 and others).
 func ProfileFull(name string, over map[string]int) *Profile {
-	return &Profile{Name: name, Weights: mix(over), Prelude: stdPrelude, PrefixIDsPct: 20, PopulatedPct: 5}
+	return &Profile{Name: name, Weights: mix(over), Prelude: stdPrelude, PrefixIDsPct: 20, PopulatedPct: 5, GasSqueezePct: 8}
 }
